@@ -99,3 +99,88 @@ def rename(job):
     # the renamed action must still be the one registered in its domain, and the other actions untouched
     out["same_object"] = d1.actions[job["action"]] is a1
     return out
+
+
+# ---------------------------------------------------------------- the repository's own domains
+def _bound_names(pre):
+    out = []
+    for op in getattr(pre, "operands", []):
+        if hasattr(op, "quantified_parameter"):
+            out.append(op.quantified_parameter)
+        if hasattr(op, "operands"):
+            out += _bound_names(op)
+    return out
+
+
+def _candidates(domain, objects, facts, rnd, action, n):
+    """argument tuples likely to be applicable: unify positive precondition literals with facts (an input generator only)"""
+    from pddl_plus_parser.models import Predicate
+    universe = list(objects.items()) + list(domain.constants.items())
+    params = list(action.signature.items())
+    pools = {p: [name for name, o in universe if o.type.is_sub_type(t)] for p, t in params}
+    if params and not all(pools.values()):
+        return []
+    lits = [c for c in action.preconditions.root.operands if isinstance(c, Predicate) and c.is_positive]
+    out = []
+    for _ in range(4 * n):
+        binding = {}
+        order = list(lits)
+        rnd.shuffle(order)
+        for lit in order:
+            rows = [r for r in facts.get(lit.name, []) if len(r) == len(lit.signature) and
+                    all(binding.get(p, v) == v for p, v in zip(lit.signature, r) if p in pools)]
+            if rows and rnd.random() < 0.85:
+                row = rnd.choice(rows)
+                for p, v in zip(lit.signature, row):
+                    if p in pools:
+                        binding[p] = v
+        args = [binding.get(p) or rnd.choice(pools[p]) for p, _ in params]
+        if args not in out:
+            out.append(args)
+        if len(out) >= n:
+            break
+    return out
+
+
+def fixture_info(job):
+    """job: domain (path), problem (path or None), seed, calls -> what the harness needs to build renaming cases"""
+    import random
+    from pathlib import Path
+    rnd = random.Random(job["seed"])
+    domain = DomainParser(Path(job["domain"])).parse_domain()
+    out = {"domain_text": open(job["domain"]).read(), "domain_name": domain.name,
+           "consts": list(domain.constants), "actions": {}, "objects": [], "states": [], "calls": {}}
+    for name, a in domain.actions.items():
+        bound = _bound_names(a.preconditions.root)
+        for ce in a.conditional_effects:
+            bound += _bound_names(ce.antecedents.root)
+        for ue in a.universal_effects:
+            bound.append(ue.quantified_parameter)
+            for ce in ue.conditional_effects:
+                bound += _bound_names(ce.antecedents.root)
+        out["actions"][name] = {"params": [[p, t.name] for p, t in a.signature.items()], "bound": sorted(set(bound)),
+                                "n_when": len(a.conditional_effects), "n_forall": len(a.universal_effects)}
+    if job.get("problem"):
+        problem = ProblemParser(Path(job["problem"]), domain).parse_problem()
+        out["objects"] = [[n, o.type.name] for n, o in problem.objects.items()]
+        state = State(problem.initial_state_predicates, problem.initial_state_fluents, is_init=True)
+        for step in range(job.get("steps", 2)):
+            st = read_state_text(state.serialize())
+            facts = {}
+            for p, args in st["facts"]:
+                facts.setdefault(p, []).append(args)
+            calls, applicable = {}, []
+            for name, a in domain.actions.items():
+                calls[name] = _candidates(domain, problem.objects, facts, rnd, a, job.get("calls", 3))
+                for args in calls[name]:
+                    try:
+                        if Operator(a, domain, list(args), problem.objects).is_applicable(state):
+                            applicable.append((name, args))
+                    except Exception:  # noqa
+                        pass
+            out["states"].append({"state": st, "calls": calls})
+            if not applicable:
+                break
+            name, args = rnd.choice(applicable)
+            state = Operator(domain.actions[name], domain, list(args), problem.objects).apply(state)
+    return out
